@@ -8,7 +8,7 @@ from ..common.outcome import Outcome, require
 ID = "C11"
 FIVE = ["squared_euclidean", "euclidean", "average_euclidean", "log_euclidean", "log_squared_euclidean"]
 RULE = (
-    "(a) tie-free training set + query pool by construction (integer coordinates / 8, all pairwise squared distances over the union distinct), >= 2 classes, a drawn permutation of the training order; "
+    "(a) tie-free training set + query pool by construction (1..3 or 34/40 dimensions, optionally shifted by a common offset 2^20 / 2^24; integer coordinates / 8, all pairwise squared distances over the union distinct), >= 2 classes, a drawn permutation of the training order; "
     "the five mutually monotone identifiers euclidean, squared_euclidean, average_euclidean, log_euclidean, log_squared_euclidean. The construction makes the premise hold with a wide margin, so on the evaluated matrices each of the five identifiers must give distinct symmetric values in the same strict order (a failure is reported: the identifier is then not a strictly increasing transform). "
     "Oracle (metamorphic): permuted run: cost (exact), prototype status and assigned label of every sample and all "
     "predictions equal the base run; rescaled runs: prototype set, assigned labels, predictions equal across the five metrics and costs have the same rank order. "
@@ -26,8 +26,13 @@ BUDGET = {
 def _case(draw, nmax):
     nt = draw(st.integers(3, nmax))
     nq = draw(st.integers(1, 5))
-    dim = draw(st.integers(1, 3))
+    dim = draw(st.sampled_from([1, 2, 3, 1, 2, 3, 34, 40]))
     X = draw(gen.tiefree_points(nt + nq, dim))
+    if draw(st.integers(0, 3)) == 0:
+        # a large common offset (exactly representable: coordinates are multiples of 1/8): differences, hence all five metrics'
+        # exact values, are unchanged, but any formula that does not work on differences loses digits
+        off = draw(st.sampled_from([1048576.0, 16777216.0]))
+        X = [[v + off for v in p] for p in X]
     Y = draw(gen.labels(nt, 2, 3))
     perm = list(draw(st.permutations(list(range(nt)))))
     return {"X": X, "nt": nt, "nq": nq, "Y": Y, "perm": perm}
@@ -119,7 +124,7 @@ def check_case(case):
         if base_rank is None:
             base_rank = rk
         else:
-            require(rk == base_rank, "rescaling:strictly_increasing_transform", lambda: "%s orders the pairs differently from euclidean on X=%r" % (n, X))
+            require(rk == base_rank, "rescaling:strictly_increasing_transform", lambda: "%s orders the pairs differently from %s on X=%r" % (n, FIVE[0], X))
     runs = {n: _fit(n, tr, Y, qs) for n in FIVE}
     # --- permutation invariance (each of the five metrics)
     trp = [tr[i] for i in perm]
